@@ -92,7 +92,7 @@ theorem build_refs_in_range (db : Db) (rb : Bp.RefBp) (r : Ref) (h : buildRef db
   simp only [h1] at h
   have hi1 := locateTable_in_range _ _ _ _ h1
   have ht1 : db.tables[i1]? = some db.tables[i1] := List.getElem?_eq_getElem hi1
-  simp only [ht1] at h
+  simp only [colsAt, ht1] at h
   cases h2 : locateCols db.tables[i1] cn1 with
   | error e => simp [h2] at h
   | ok c1 =>
